@@ -97,7 +97,7 @@ func WConfig(prop, tier string) *Config {
 		}
 	case "C11":
 		ops := []string{"swap_in_p1_usdc_atom_L", "swap_out_p1_atom_usdc_D", "join_p1_all_t1", "exit_p1_10pct_lp1", "perp_open_long_t1", "perp_open_long_atomcoll_t1", "perp_open_short_t2", "perp_topup_t1", "perp_close_half_t1", "perp_close_full_t1", "perp_close_full_t2", "perp_update_tp_t1", "perp_bot_close_all",
-			"gap_1d", "price_atom_4", "price_atom_8", "llp_open_t1_x3", "empty", "perp_open_long_t3_small", "perp_open_long_t3_lowlev", "perp_bot_liquidate_t1_only", "perp_bot_liquidate_t2_only", "perp_bot_liquidate_t3_only"}
+			"gap_1d", "price_atom_4", "price_atom_8", "llp_open_t1_x3", "empty", "perp_open_long_t3_small", "perp_open_long_t3_lowlev", "perp_update_sl_t1", "perp_update_sl_t2", "perp_bot_close_all_at_4.4", "perp_bot_close_all_at_3", "perp_bot_close_all_at_5.6", "perp_bot_close_all_at_8", "perp_bot_close_all_at_2", "perp_bot_liquidate_t1_only", "perp_bot_liquidate_t2_only", "perp_bot_liquidate_t3_only"}
 		cfg.Oracles = []*Oracle{OracleC11()}
 		if thorough {
 			cfg.Phases = []Phase{{Name: "full-depth3", Roots: roots01, Ops: ops, Depth: 3, Dev: 3}, {Name: "hooks-depth4", Roots: []string{"R0"}, Ops: []string{"swap_in_p1_usdc_atom_L", "join_p1_all_t1", "exit_p1_10pct_lp1", "perp_open_long_t1", "perp_open_short_t2", "perp_topup_t1", "perp_close_half_t1", "perp_close_full_t2", "perp_bot_close_all", "gap_1d", "price_atom_8", "empty"}, Depth: 4, Dev: 3}}
